@@ -11,6 +11,7 @@ Directives (all start with `//@`):
   //@include <path relative to /verif>
   //@fields file=<src> name=<Struct> [drop=a,b]
   //@body id=<id> file=<src> name=<fn> [impl_self=..] [impl_trait=..] [in_trait=..] [props=C01,C07]
+       [slice_from="regex" slice_to="regex" slice_result=var]  (statement slice: only that run of top-level statements is extracted)
   //@sig <normalised source signature>          (drift check)
   //@rules R-a R-b ...
   //@loop <N> [iter=<name>]                     followed by //@| clause lines
@@ -380,7 +381,7 @@ def assemble(unit, canary=False):
             it["const_map"] = bd.const_map
             if kv.get("kind"):
                 it["kind"] = kv["kind"]
-            for k in ("impl_self", "impl_trait", "in_trait"):
+            for k in ("impl_self", "impl_trait", "in_trait", "slice_from", "slice_to", "slice_result"):
                 if k in kv:
                     it[k] = kv[k]
             items.append(it)
